@@ -246,6 +246,87 @@ UNITS += [
 ]
 
 
+
+# ---------------------------------------------------------------- Strip / SplitRaw / Split against Σ
+def strip_spec(s):
+  """Blank-stripping and peeling of outer parentheses that enclose a whole text, until neither applies."""
+  while True:
+    s = s[lo(s):hi(s)]
+    if len(s) >= 2 and s[0] == '(' and s[-1] == ')' and whole(s[1:-1]):
+      s = s[1:-1]
+    else:
+      return s
+
+
+def split_spec(s, sep):
+  """Cuts at the occurrences of sep in code at bracket depth 0 (Σ state empty), outside strings and comments;
+  `|` next to another `|` is not a separator; an alphanumeric separator must not be part of a word."""
+  parts, start, l = [], 0, len(sep)
+  it = iter(sigma(s))
+  for idx, state, status in it:
+    if not state and s[idx:idx + l] == sep and (len(s) == idx + l or s[idx + l] != '|') and \
+        (idx == 0 or s[idx - 1] != '|'):
+      if sep.isalnum() and (idx > 0 and s[idx - 1].isalnum() or idx + l < len(s) and s[idx + l].isalnum()):
+        continue
+      parts.append(s[start:idx])
+      for _ in range(l - 1):
+        idx, state, status = next(it)
+      start = idx + 1
+  parts.append(s[start:])
+  return parts
+
+
+SPLIT_CASES = [(',', 'a,( )"|'), ('|', 'a|(,)"'), ('||', 'a|( "'), (':-', 'a:-( "'), ('then', 'then (a'), ('==', 'a=( "'),
+               (' in ', 'a in('), ('=', 'a=(<"'), (';', 'a;("#\n')]
+
+
+def gen_split(tier, mod):
+  import itertools
+  n = 5 if tier == 'quick' else 6
+  for sep, alpha in SPLIT_CASES:
+    letters = sorted(set(alpha) - set(sep)) + [sep]          # the separator is one "letter" of the strings
+    for k in range(n + 1 - (1 if len(letters) > 6 else 0)):
+      for t in itertools.product(letters, repeat=k):
+        text = ''.join(t)
+        if len(text) <= 9:
+          yield {'args': [mod.HeritageAwareString(text), sep], 'env': {'sigma': sigma}, 'show': [text, sep]}
+  for text, sep in [('[a,b],[c,d]', ','), ('f(a, "x,y"), g', ','), ('a || b | c', '|'), ('P(x) :- Q(":-")', ':-'),
+                    ('if a then (if b then c else d) else e', 'then'), ('athen b then c', 'then'), ('x in y in z', ' in '),
+                    ('a, /* , */ b', ','), ('a, # ,\n b', ','), ('"""a,b""", c', ','), ("'a\\',b", ',')]:
+    yield {'args': [mod.HeritageAwareString(text), sep], 'env': {'sigma': sigma}, 'show': [text, sep]}
+
+
+def gen_strip_parens(tier, mod):
+  import itertools
+  n = 6 if tier == 'quick' else 7
+  for k in range(n + 1):
+    for t in itertools.product(' a()"', repeat=k):
+      yield {'args': [mod.HeritageAwareString(''.join(t))], 'show': repr(''.join(t))}
+  for text in ['((a))', '( (a) )', '(a)(b)', '(a) , (b)', ' ( "(" ) ', '(\n (a)\n)', '((a)', '(a))', '( # c\n a )', '(/* ) */ a)',
+               "('\\')", '(`(`)', '(""")""")', '( ( ( a ) ) ( b ) )']:
+    yield {'args': [mod.HeritageAwareString(text)], 'show': repr(text)}
+
+
+UNITS += [
+  unit(F, 'Strip', props=['C15'], deductive=False, params=['s'],
+       native_env={'strip_spec': strip_spec, 'whole': whole},
+       ensures=["str(result) == strip_spec(str(s))",
+                # a fixed point: no outer blanks, no outer parentheses around a whole text
+                "len(result) == 0 or not (result[0].isspace() or result[-1].isspace())",
+                "not (len(result) >= 2 and result[0] == '(' and result[-1] == ')' and whole(str(result)[1:-1]))"],
+       raises={'ParsingException': "False"}, native=gen_strip_parens),
+  unit(F, 'SplitRaw', props=['C15'], deductive=False, params=['s', 'separator'],
+       native_env={'split_spec': split_spec, 'bad': bad},
+       ensures=["[str(p) for p in result] == split_spec(str(s), separator)",
+                # the pieces and the separators make up the text again
+                "separator.join(str(p) for p in result) == str(s)"],
+       raises={'ParsingException': "bad(str(s))"}, native=gen_split),
+  unit(F, 'Split', props=['C15'], deductive=False, params=['s', 'separator'],
+       native_env={'split_spec': split_spec, 'strip_spec': strip_spec, 'bad': bad},
+       ensures=["[str(p) for p in result] == [strip_spec(p) for p in split_spec(str(s), separator)]"],
+       raises={'ParsingException': "bad(str(s))"}, native=gen_split),
+]
+
 # ---------------------------------------------------------------- C++ bridge: byte spans -> character spans
 def gen_decode(tier, mod):
   texts = ['abc', 'aé', 'éa', 'T("é∞", y);', 'a😀b(c)', '∞', 'x == "é" ++ y, "z"', 'плюс(1)']
